@@ -51,7 +51,11 @@ static void run(const DetectorErrorModel &m, Rng &rng, Stats &st) {
     size_t shots = rng.pick(SHOTS);
     static const SampleFormat F[] = {SampleFormat::SAMPLE_FORMAT_01, SampleFormat::SAMPLE_FORMAT_B8, SampleFormat::SAMPLE_FORMAT_R8, SampleFormat::SAMPLE_FORMAT_HITS,
                                      SampleFormat::SAMPLE_FORMAT_DETS};
-    DemSampler<W> sampler(m, std::mt19937_64(rng.next()), shots);
+    // the sampler works in batches ("stripes"); `stim sample_dem` uses 1024: several batches per run must behave like one
+    size_t batch = rng.chance(0.5) ? shots : rng.pick(std::vector<size_t>{1, 64, 100, 256, 1024});
+    size_t batch2 = rng.chance(0.5) ? shots : rng.pick(std::vector<size_t>{64, 100, 256, 1024});
+    if (batch < shots || batch2 < shots) st.hit("runs_with_several_batches");
+    DemSampler<W> sampler(m, std::mt19937_64(rng.next()), batch);
     FILE *fd = tmpfile(), *fo = tmpfile(), *fe = tmpfile();
     sampler.sample_write(shots, fd, SampleFormat::SAMPLE_FORMAT_01, fo, SampleFormat::SAMPLE_FORMAT_01, fe, SampleFormat::SAMPLE_FORMAT_01, nullptr, SampleFormat::SAMPLE_FORMAT_01);
     std::string sd = slurp(fd), so = slurp(fo), se = slurp(fe);
@@ -86,7 +90,7 @@ static void run(const DetectorErrorModel &m, Rng &rng, Stats &st) {
             write_table_data<W>(fe2, shots, ne, noref, tt, F[f], 'M', 'M', 0);
             rewind(fe2);
         }
-        DemSampler<W> replayer(m, std::mt19937_64(12345), shots);
+        DemSampler<W> replayer(m, std::mt19937_64(12345), batch2);
         FILE *fd2 = tmpfile(), *fo2 = tmpfile(), *fe3 = tmpfile();
         try {
             replayer.sample_write(shots, fd2, SampleFormat::SAMPLE_FORMAT_01, fo2, SampleFormat::SAMPLE_FORMAT_01, fe3, SampleFormat::SAMPLE_FORMAT_01, fe2, F[f]);
@@ -102,7 +106,7 @@ static void run(const DetectorErrorModel &m, Rng &rng, Stats &st) {
     // output formats: det/obs written in another format decode to the same bits
     {
         int f = 1 + (int)rng.below(4);
-        DemSampler<W> again(m, std::mt19937_64(12345), shots);
+        DemSampler<W> again(m, std::mt19937_64(12345), batch2);
         FILE *fe2 = tmpfile();
         fwrite(se.data(), 1, se.size(), fe2);
         rewind(fe2);
